@@ -371,7 +371,13 @@ def t6(ctx):
             continue
         fors = [e for e in p.trace if e.kind == 'FOR' and e.d['it'] == 1]
         if not fors:
-            continue   # zero shards: nothing to enter
+            # yielding without entering any shard is only legitimate when self._shards is empty
+            zero = [e for e in p.trace[:ys[0]] if e.kind == 'FOR' and e.d['it'] == 0 and e.d['iter'].k == 'selfattr'
+                    and e.d['iter'].a[1] == '_shards']
+            if not zero:
+                ok = False
+                wit = fmt_trace(p.trace)
+            continue
         npaths += 1
         y = ys[0]
         stack_enter = [e for e in p.trace[:y] if e.kind == 'WITH_ENTER' and e.d['ctx'].k == 'ext'
